@@ -224,6 +224,16 @@ def run_case(case):
         elif len(case['ops']) % 4 == 1:
             from . import c10
             h.exportObject(c10._plain_for(O, obj))        # reaches IDBusObject through a registered adapter
+        elif len(case['ops']) % 4 == 3:
+            # the application rebuilt its object: a predecessor of the same class, holding other values, sits at the path
+            # and is replaced by exporting the new one over it (no unexport in between); nobody touches the old one again
+            old = type(obj)('/props')
+            for a in attrs:
+                spec = _pspec(case, a['iface'], a['pname'])
+                setattr(old, a['attr'], {'s': 'old', 'i': -9, 'u': 9, 'y': 9, 'b': True}.get(
+                    spec['sig'], _natural(spec['sig'], a['init'])))
+            h.exportObject(old)
+            h.exportObject(obj)
         else:
             h.exportObject(obj)
         # a sibling: another instance of the same class with values of its own, exported next to the first; whatever is
@@ -408,6 +418,8 @@ def classify(case):
     for op in case['ops']:
         if op[0] == 'assign' and len(op) > 3 and op[3]:
             labels.append('assign_wrapped_declared' if op[3] == 1 else 'assign_wrapped_other_type')
+    labels.append({0: 'plain_export', 1: 'exported_through_adapter', 2: 'moved_from_another_connection',
+                   3: 'exported_over_a_predecessor'}[len(case['ops']) % 4])
     return coll or inh or set_then_get, sorted(set(labels))
 
 
